@@ -228,7 +228,7 @@ impl Property for C10 {
         format!(
             "every event program of 1..={} events (delays {{0,1,t,Y,Y+1}}) x start in {{0,5}} x (n,t) in {:?} x every step schedule of 1..={} steps (3 steps for programs of up to 2 events) over \
              {{dispatch_n_events(0..3), dispatch_events_until(T) for T = every timestamp of the program and +-1ns, add_event while paused at sim_time / +1ns / midway / at / after the next pending timestamp}}, \
-             followed by dispatch_all and finish; oracle: the handler log is a valid exactly-once time-ordered schedule (checked against the pending set derived from what was actually dispatched), \
+             followed by dispatch_all and finish; plus two programs of 24 events 1 ns apart beyond 2^24 s / 2^25 s of simulated time, stepped by dispatch_events_until to every (every 2nd, every 3rd) of their timestamps; oracle: the handler log is a valid exactly-once time-ordered schedule (checked against the pending set derived from what was actually dispatched), \
              per-step counts and cut positions, paused sim_time / num_events_remaining / num_events_dispatched / num_events_scheduled / was_started, paused adds accepted, and for schedules without external adds equality with the log of the real uninterrupted run; \
              non-trivial = schedule that cuts inside the run (not before the first or after the last event)",
             tier.pick(3, 4),
@@ -242,9 +242,30 @@ impl Property for C10 {
         ]
     }
     fn required_features(&self, _tier: Tier) -> Vec<&'static str> {
-        vec!["cut_inside_tie_group", "cut_by_time_between_events", "paused_add_between_now_and_next", "paused_add_at_now", "schedule_without_external_add"]
+        vec!["cut_inside_tie_group", "cut_by_time_between_events", "paused_add_between_now_and_next", "paused_add_at_now", "schedule_without_external_add", "until_steps_beyond_2^24_seconds"]
     }
     fn explore(&self, ctx: &mut Ctx) {
+        if ctx.is_first_shard() {
+            // until-steps far from zero: events 1 ns apart beyond 2^24 s of simulated time (1 ns is below
+            // the resolution of an f64 second count there), stepped to each of their timestamps in turn
+            for (n, t, base) in [(4usize, 1_100_000_000u64, (1u64 << 24) * 1_000_000_000 + 123_456_789), (8, 99_900_000_000, (1u64 << 25) * 1_000_000_000 + 999_999_990)] {
+                let cfg = RtCfg { n, t, start: 0 };
+                let m = 24u32;
+                let prog = Arc::new(Program { roots: (0..m).map(|j| (j, base + u64::from(j))).collect(), children: vec![vec![]; m as usize] });
+                for stride in [1u64, 2, 3] {
+                    let sched: Vec<Step> = (0..u64::from(m)).step_by(stride as usize).map(|j| Step::Until(base + j)).collect();
+                    ctx.begin(|| case_json(cfg, &prog, &sched));
+                    ctx.out.evaluations += 1;
+                    ctx.out.traces += 1;
+                    ctx.hit("until_steps_beyond_2^24_seconds");
+                    let r = uninterrupted(cfg, &prog).and_then(|b| run_case(cfg, &prog, &sched, Some(&b)));
+                    match r {
+                        Ok(o) => ctx.outcome(o),
+                        Err(d) => ctx.violation("violation", || case_json(cfg, &prog, &sched), d),
+                    }
+                }
+            }
+        }
         let maxm = ctx.tier.pick(3, 4);
         let maxs = ctx.tier.pick(2, 3);
         for (n, t) in CFGS {
